@@ -42,9 +42,11 @@ _truth = {}
 
 
 class Zygote:
-    def __init__(self, hashseed: int):
+    def __init__(self, hashseed: int, shared_conf=None):
         env = dict(os.environ)
         env["PYTHONHASHSEED"] = str(hashseed)
+        if shared_conf:
+            env["SPIL_VERIF_SHARED_CONF"] = str(shared_conf)
         verif = str(Path(__file__).resolve().parent.parent.parent)
         env["PYTHONPATH"] = verif + (os.pathsep + env["PYTHONPATH"] if env.get("PYTHONPATH") else "")
         self.p = subprocess.Popen([sys.executable, "-m", "vp.zygote"], stdin=subprocess.PIPE, stdout=subprocess.PIPE,
